@@ -14,10 +14,12 @@ OBLIGATIONS = [
 ] + [o for o in _c03.OBLIGATIONS if o.name in ('C03.O2.thread_iteration', 'C03.O4.data_free', 'C03.O1.call_rcu_enqueue')]
 # futex-wait loops of the helper / of rcu_barrier (shared with C02; late import via engine/check.py)
 def _shared():
-    from obligations import C02 as _c02
+    from obligations import C02 as _c02, C01 as _c01
     _r = [o for o in _c02.OBLIGATIONS if o.name in ('C02.O3.completion_wait', 'C02.O3.call_rcu_wait')]
     from obligations import C10 as _c10
     _r += [o for o in _c10.OBLIGATIONS if o.name in ('C10.O1.enqueue', 'C10.O1.splice', 'C10.O1.iter')]
+    # an online qsbr caller of rcu_barrier goes offline while it waits (and that transition wakes a grace period that sleeps on it)
+    _r += [o for o in _c01.OBLIGATIONS if o.name in ('C01.O3.qsbr.offline', 'C01.O3.qsbr.online', 'C01.O3.qsbr.quiescent_state')]
     return _r
 META = {
     'level': 'other',
